@@ -191,6 +191,12 @@ def check_place(t, g, rng, res):
         cols = t.get_columns(c)
         if [cc.x for cc in cols] != list(range(x, z + 1)):
             bad("get_columns", form, c, [cc.x for cc in cols], list(range(x, z + 1)))
+    # a single reference given to get_columns designates one column, whatever its form
+    for form, c in [("str-col", TL.alpha(x)), ("str-cell", f"{TL.alpha(x)}{y + 1}"), ("1tuple", (x,)), ("1list", [x]), ("neg-1tuple", (x - W,)), ("A:A", f"{TL.alpha(x)}:{TL.alpha(x)}"), ("2tuple-same", (x, x))]:
+        jud("get_columns", form, "single")
+        cols = t.get_columns(c)
+        if [cc.x for cc in cols] != [x]:
+            bad("get_columns", form, c, [cc.x for cc in cols], [x])
     row_forms = [("1:4", f"{y + 1}:{tt + 1}"), ("2tuple-rows", (y, tt)), ("4tuple-None", (None, y, None, tt)), ("neg-2tuple-rows", (y, tt - H))]
     exp = g.area(0, y, W - 1, tt)
     for form, c in row_forms:
